@@ -130,6 +130,7 @@ def run(ctx, model=None):
     for k in range(12 if ctx.quick() else 200):
         check_case(ctx, gen.tiny_best_game(rng), model)
         check_case(ctx, gen.zero_prob_dead_game(rng), model)
+        check_case(ctx, gen.zero_prob_live_game(rng), model)
         check_case(ctx, gen.subnormal_reach_game(rng), model)
         check_case(ctx, gen.tiny_dead_decimal_game(rng), model)
         check_case(ctx, gen.tiny_reach_game(rng), model)
